@@ -1,6 +1,6 @@
 #!/venv/bin/python
 """tools/seedrun.py [ID ...] : run the quick check of each property against every seeded defect stored under
-/verif/seeded/<ID>-<n>/patch.diff (applied to a scratch copy of /repo), update meta.json, print a table."""
+/verif/seeded/<ID>-<n>/patch.diff (applied to a scratch copy of /repo), update meta.json (unless SEED_NOWRITE is set), print a table."""
 import sys, os, subprocess, tempfile, shutil, json, time
 want = [x.upper() for x in sys.argv[1:]]
 tier = os.environ.get("SEED_TIER", "quick")
@@ -24,6 +24,8 @@ for name in sorted(os.listdir(root)):
                            env=dict(os.environ, VERIF_REPO=t, VERIF_EVIDENCE_DIR=os.path.join(t, ".ev")), capture_output=True, text=True, cwd="/verif")
         sigs = sorted(set(l.split("signature=")[1] for l in r.stdout.splitlines() if "signature=" in l))[:6]
         rows.append((name, {0: "MISSED", 1: "detected"}.get(r.returncode, "HARNESS-ERROR %d" % r.returncode), ", ".join(sigs), round(time.time() - t0, 1)))
+        if os.environ.get("SEED_NOWRITE"):
+            continue        # e.g. VERIF_SEED=2 SEED_NOWRITE=1 tools/seedrun.py : detection at another seed, meta.json untouched
         mp = os.path.join(d, "meta.json")
         meta = json.load(open(mp))
         meta.update({"quick_check_detects": r.returncode == 1, "check_signatures": sigs, "check_tier": tier, "demo_fails_with_patch": dr.returncode != 0})
